@@ -348,7 +348,8 @@ def _tc(c):
     return tag, vber.int_content(val)
 
 
-COMMUNITIES = ["public", "traps", "x", "a" * 40]
+# (any octet string is a community: blanks at either end, upper case, a single blank, 255 octets; the API takes the community as an ASCII str)
+COMMUNITIES = ["public", "traps", "x", "a" * 40, "noc-traps ", " lead", "tab\t", "Mixed Case", " ", "z" * 255]
 ADDR = st.one_of(
     st.tuples(st.sampled_from(["192.0.2.9", "10.0.0.1", "127.0.0.1", "255.255.255.255"]), st.integers(1, 65535)).map(list),
     st.tuples(st.sampled_from(["192.0.2.9", "10.0.0.1"]), st.integers(1, 65535)).map(list),
@@ -381,7 +382,8 @@ def cases(draw):
             items.append(base)
         elif k == "foreign":
             items.append(dict(base, kind="foreign", community=draw(st.sampled_from(
-                ["private", "Public", "", community + "x", community + "\xff", "\xe9" + community, community[:1] + "\x80" + community[1:]]))))
+                ["private", "Public", "", community + "x", community + "\xff", "\xe9" + community, community[:1] + "\x80" + community[1:],
+                 community.strip() or "x", community + " ", " " + community, community.lower(), community.upper()]))))
         elif k == "version":
             items.append(dict(base, kind="version", v=draw(st.sampled_from([0, 3])),
                               community=draw(st.sampled_from([community, "other"]))))
